@@ -606,10 +606,25 @@ func genShared(rt *rapid.T, mode string) c17Shared {
 	cfg.MaxDepth, cfg.PPost, cfg.NoCustom = 1, 0, true
 	cfg.PVary, cfg.PAbsent, cfg.PJunk = 0.4, 0.15, 0.05
 	g := model.NewGen(rt, cfg)
+	root := sharedRoot(rt, g)
+	typed := g.GenTyped(root)
+	c := model.Case{Root: root, Exec: model.Exec{Mode: mode}}
+	if mode == "parse" {
+		c.Input, _ = g.Render(root, typed, "root")
+	} else {
+		c.Input = typed
+	}
+	return c17Shared{Case: c}
+}
+
+// sharedRoot draws a struct whose fields reuse ONE schema object at 2-3 places
+// (directly, as slice element, behind a pointer). For struct prototypes each
+// use may have its own destination type: other field order, other zog tags.
+func sharedRoot(rt *rapid.T, g *model.Gen) *model.Node {
 	pd := rapid.IntRange(0, 1).Draw(rt, "pd")
 	var proto *model.Node
 	if pd == 1 && rapid.Bool().Draw(rt, "structproto") {
-		saved := cfg.RootKinds
+		saved := g.Cfg.RootKinds
 		g.Cfg.RootKinds = []string{model.KStruct}
 		g.Cfg.MaxFields = 4
 		proto = g.GenNode(1, true)
@@ -617,17 +632,28 @@ func genShared(rt *rapid.T, mode string) c17Shared {
 	} else {
 		proto = g.GenNode(pd, false)
 	}
-	for proto.Kind == model.KPtr || proto.Kind == model.KCustom {
+	for proto.Kind == model.KPtr || proto.Kind == model.KCustom || proto.Kind == model.KPre {
 		proto = g.GenNode(0, false)
 	}
+	proto.Via = ""
 	use := 0
 	clone := func() *model.Node {
 		c := model.RoundTrip(*proto)
 		copyWitness(g, proto, &c)
 		markShare(&c, 1)
-		// one schema object may serve destination types that declare the same fields in another order
-		if use > 0 && c.Kind == model.KStruct && len(c.Fields)+len(c.Extra) >= 2 {
-			c.TypeRot = rapid.IntRange(0, len(c.Fields)+len(c.Extra)-1).Draw(rt, "typerot")
+		// one schema object may serve destination types that declare the same fields in another order / with other tags
+		if use > 0 && c.Kind == model.KStruct {
+			if len(c.Fields)+len(c.Extra) >= 2 {
+				c.TypeRot = rapid.IntRange(0, len(c.Fields)+len(c.Extra)-1).Draw(rt, "typerot")
+			}
+			for i := range c.Fields {
+				switch rapid.IntRange(0, 3).Draw(rt, "retag") {
+				case 0:
+					c.Fields[i].Tags = map[string]string{"zog": fmt.Sprintf("u%d_%s", use, c.Fields[i].Key)}
+				case 1:
+					c.Fields[i].Tags = nil
+				}
+			}
 		}
 		use++
 		return &c
@@ -648,14 +674,7 @@ func genShared(rt *rapid.T, mode string) c17Shared {
 		root.Fields = append(root.Fields, model.Field{Key: fmt.Sprintf("f%d", i), Node: n})
 	}
 	root.Number()
-	typed := g.GenTyped(root)
-	c := model.Case{Root: root, Exec: model.Exec{Mode: mode}}
-	if mode == "parse" {
-		c.Input, _ = g.Render(root, typed, "root")
-	} else {
-		c.Input = typed
-	}
-	return c17Shared{Case: c}
+	return root
 }
 
 func markShare(n *model.Node, id int) {
